@@ -25,7 +25,8 @@ Names == {"a.html", "a.js", "a.css", "a.txt", "a", "a.foo", "a.html.twig", "a.js
 Forms == {"plain", "escape", "escape-js", "escape-attr", "escape-css", "escape-url", "raw", "safe-html", "safe-js", "filtered",
           "concat", "literal", "number", "empty", "escape-raw", "tern", "stringer", "stringer-escape", "stringer-js",
           "tern-raw-else", "tern-raw-then", "tern-esc-else", "tern-paren-raw", "tern-chain-raw", "plain-q1", "plain-q2", "plain-q3", "attr-q1",
-          "plain-q4", "js-q4", "css-q4", "url-q4", "attr-q4", "derived-orig", "derived-new"}
+          "plain-q4", "js-q4", "css-q4", "url-q4", "attr-q4", "derived-orig", "derived-new",
+          "escape-bogus", "escape-empty", "escape-upper", "paren-escape", "paren-attr", "paren-raw", "paren2-js"}
 Places == {"top", "if", "else", "for", "block", "inherited", "included", "embedded", "override", "capture", "section", "macro", "forelse", "override2"}
 
 PrintOf(form) ==
@@ -50,6 +51,15 @@ PrintOf(form) ==
     (* a value safe for js only, from which user code derives a value that is safe for html as well: the original is unchanged *)
     [] form = "derived-orig" -> PrintS(AttrBr(ArrE(<<Pipe(NameE("sj"), "mark", <<>>), NameE("sj")>>), IntE(1)))
     [] form = "derived-new" -> PrintS(AttrBr(ArrE(<<Pipe(NameE("sj"), "mark", <<>>), NameE("sj")>>), IntE(0)))
+    (* an escape filter naming no existing strategy is no way around the template's escaping *)
+    [] form = "escape-bogus" -> PrintS(Pipe(NameE("x"), "escape", <<StrE("bogus")>>))
+    [] form = "escape-empty" -> PrintS(Pipe(NameE("x"), "escape", <<StrE("")>>))
+    [] form = "escape-upper" -> PrintS(Pipe(NameE("x"), "escape", <<StrE("HTML")>>))
+    (* parentheses that merely restate the grouping *)
+    [] form = "paren-escape" -> PrintS(Grp(Pipe(NameE("x"), "escape", <<>>)))
+    [] form = "paren-attr" -> PrintS(Grp(Pipe(NameE("x"), "escape", <<StrE("html_attr")>>)))
+    [] form = "paren-raw" -> PrintS(Grp(Pipe(NameE("x"), "raw", <<>>)))
+    [] form = "paren2-js" -> PrintS(Grp(Grp(Pipe(NameE("x"), "escape", <<StrE("js")>>))))
     [] form = "plain-q4" -> PrintS(NameE("q4"))
     [] form = "js-q4" -> PrintS(Pipe(NameE("q4"), "escape", <<StrE("js")>>)) [] form = "css-q4" -> PrintS(Pipe(NameE("q4"), "escape", <<StrE("css")>>))
     [] form = "url-q4" -> PrintS(Pipe(NameE("q4"), "escape", <<StrE("url")>>)) [] form = "attr-q4" -> PrintS(Pipe(NameE("q4"), "escape", <<StrE("html_attr")>>))
@@ -86,6 +96,9 @@ Seg(form, ct) ==
     [] form = "attr-q1" -> E("html_attr", Payload1)
     [] form = "derived-orig" -> IF ct = "js" THEN Payload ELSE E(ct, Payload)
     [] form = "derived-new" -> IF ct \in {"js", "html"} THEN Payload ELSE E(ct, Payload)
+    [] form \in {"escape-bogus", "escape-empty", "escape-upper"} -> E(ct, Payload)
+    [] form = "paren-escape" -> E("html", Payload) [] form = "paren-attr" -> E("html_attr", Payload)
+    [] form = "paren-raw" -> Payload [] form = "paren2-js" -> E("js", Payload)
     [] form = "plain-q4" -> E(ct, Payload4) [] form = "js-q4" -> E("js", Payload4) [] form = "css-q4" -> E("css", Payload4)
     [] form = "url-q4" -> E("url", Payload4) [] form = "attr-q4" -> E("html_attr", Payload4)
     [] form \in {"tern-raw-else", "tern-raw-then", "tern-esc-else", "tern-paren-raw", "tern-chain-raw", "plain-q1", "plain-q2", "plain-q3", "attr-q1",
